@@ -253,7 +253,13 @@ def run_bn_history(case, drv):
                 sn = {pn[x]: [gen.lab(l) for l in labels[x]] for x in [v] + ps}
                 cpd = TabularCPD(pn[v], card[v], [[float(Fraction(x)) for x in row] for row in op["table"]],
                                  evidence=[pn[p] for p in ps] or None, evidence_card=[card[p] for p in ps] or None, state_names=sn)
-                bn.add_cpds(cpd)
+                if (step_i + v) % 3 == 0 and card[v] > 1:
+                    # two CPDs for the same variable in ONE call: the later one is the variable's CPD, exactly as with two calls
+                    alt = TabularCPD(pn[v], card[v], [[float(Fraction(x)) for x in row] for row in reversed(op["table"])],
+                                     evidence=[pn[p] for p in ps] or None, evidence_card=[card[p] for p in ps] or None, state_names=sn)
+                    bn.add_cpds(alt, cpd)
+                else:
+                    bn.add_cpds(cpd)
             elif k == "removeCpd":
                 mop = {"k": "removeCpd", "v": op["v"]}
                 bn.remove_cpds(pn[op["v"]])
@@ -362,7 +368,7 @@ def gen_other(rng, tier):
             a, b = rng.choice("ABCD"), rng.choice("ABCD")
             ta = rng.choice([0, 0, 1, 2, 3])                 # an edge may be spelled in any slice: ((A, 2), (B, 2)) means the intra edge A -> B
             tb = rng.choice([ta, ta, ta, ta + 1, ta - 1, ta + 2])
-            ops.append(rng.choice([["edge", [a, ta], [b, tb]], ["edge", [a, ta], [b, tb]], ["node", a], ["copy"]]))
+            ops.append(rng.choice([["edge", [a, ta], [b, tb]], ["edge", [a, ta], [b, tb]], ["node", a], ["copy"], ["cpds_batch", a]]))
         elif kind == "jt":
             cl = [sorted(rng.sample("ABCDE", rng.randint(1, 3))) for _ in range(2)]
             if rng.random() < .75:
@@ -412,6 +418,16 @@ def run_other(case, drv):
             elif op[0] == "edges_w":
                 eb = [(tuple(a), tuple(b)) if kind == "jt" else (a, b) for a, b in op[1]]
                 m.add_edges_from(eb, weights=[1.0 + j for j in range(len(eb))])
+            elif op[0] == "cpds_batch":
+                # one add_cpds call with a valid CPD followed by one for a variable that is not in the network: the call is rejected
+                # as a whole (nothing is stored)
+                from pgmpy.factors.discrete import TabularCPD
+                node = (op[1], 0)
+                if node in m.nodes():
+                    ps = list(m.predecessors(node))
+                    good = TabularCPD(node, 2, [[0.5] * (2 ** len(ps))] * 2, evidence=ps or None, evidence_card=[2] * len(ps) or None)
+                    bad = TabularCPD(("Q_missing", 0), 2, [[0.5], [0.5]])
+                    m.add_cpds(good, bad)
             elif op[0] == "nodes":
                 m.add_nodes_from([tuple(sorted(c)) for c in op[1]])
             elif op[0] == "node":
